@@ -382,7 +382,7 @@ Section Analyze.
                         | Err UImpossible => tr PModelBug
                         | Panic s => tr (PPanic s)
                         | Ok (s, n) =>
-                            match build_layout abi_nested_add (env_of_forest s n) (S (N.to_nat n))
+                            match build_layout abi_nested_add abi_nested_fit (env_of_forest s n) (S (N.to_nat n))
                                     (tc_values (Register.values st' ++ synthetic_values (next st') n)) [] with
                             | Ok l => tr (PLayout l)
                             | Err e => tr (PErrAbi e)
